@@ -7,7 +7,7 @@ From Coq Require Import String List NArith Bool.
 From J5V.lib Require Import Outcome Strcase.
 From J5V.model Require Import Entity.
 From J5V.gen Require EntityGen.
-From J5V.proofs Require Import StrcaseProofs EntityProofs EntityGenProofs.
+From J5V.proofs Require Import StrcaseProofs EntityProofs EntityGenProofs EntityReadmeProofs.
 Import ListNotations.
 Local Open Scope N_scope.
 
@@ -279,6 +279,12 @@ Proof.
         (conj entity_name_is_snake (conj strcase_version_agrees no_acronyms_configured)))))))).
 Qed.
 Print Assumptions C17_code_tables.
+
+(* the README's documented example (re-read from README.md on every run): the declaration it
+   prints expands, in the model, to every message, field, status value, rpc and path it shows *)
+Theorem C17_readme_example : readme_agrees.
+Proof. exact readme_agreement. Qed.
+Print Assumptions C17_readme_example.
 
 (* the repaired defect (#16): the pre-fix definition-site name ToCamel(name ++ suffix)
    equals the reference-site name exactly for names not ending in a capital — so the fix
